@@ -396,6 +396,40 @@ var attacks = []attack{
 		b.pki, b.hashed[1], b.docDGs[1] = ap, e, e
 		return g, b, err
 	}},
+	// The forger holds no CA key at all: a self-signed certificate over the forger's own key that
+	// copies what is public about the trust anchor (subject name, subject key identifier) and signs the
+	// security object directly.  Drawn shapes: no AuthorityKeyIdentifier / one naming itself; plain
+	// signer usages / CA usages and basicConstraints as the anchor has them.
+	{name: "self-signed-signer-posing-as-the-trust-anchor", sdLevel: true, prepare: func(c *ctx) (variant, variant, error) {
+		g, b := c.baseVariant(), c.baseVariant()
+		k, err := issuer.NewKey(c.src, auxSpec(c.b, c.b.DSKey, 2))
+		if err != nil {
+			return g, b, err
+		}
+		if !c.b.DSSig.Fits(k) {
+			return g, b, fmt.Errorf("aux key family differs")
+		}
+		an := c.pki.CSCA.Tmpl
+		t := issuer.CertTemplate{
+			Serial: issuer.RandomSerial(c.src, 8), Issuer: an.Subject, IssuerDER: an.SubjDER, Subject: an.Subject, SubjDER: an.SubjDER,
+			NotBefore: an.NotBefore, NotAfter: an.NotAfter, TimeForm: an.TimeForm, SubjectKey: k, SKI: an.SKI,
+			KeyUsage: &issuer.KeyUsage{Bits: []int{issuer.KUDigitalSignature}, Critical: true},
+			SigAlg:   alignAlg(c.b.DSSig, k.Spec),
+		}
+		if c.src.Intn(2) == 1 {
+			t.AKI = an.SKI
+		}
+		if c.src.Intn(2) == 1 {
+			t.KeyUsage, t.BasicConstraints = an.KeyUsage, an.BasicConstraints
+		}
+		x, err := issuer.CreateCertificate(c.src, t, k)
+		if err != nil {
+			return g, b, err
+		}
+		e, err := evilDG1(c)
+		b.signer, b.signKey, b.hashed[1], b.docDGs[1] = x, k, e, e
+		return g, b, err
+	}},
 	{name: "swapped-ds-certificate", sdLevel: true, prepare: func(c *ctx) (variant, variant, error) {
 		g, b := c.baseVariant(), c.baseVariant()
 		kb, err := issuer.NewKey(c.src, auxSpec(c.b, c.b.DSKey, 2))
